@@ -251,6 +251,40 @@ def main():
             with ctx.guard("warmup:" + name, "determinism"):
                 thunk()
     ctx.lap("jit_warmup")
+    # ---- "in any interleaving with other assemblies": space objects whose FIRST assembly happens while Numba is limited to one
+    # thread, reused afterwards with several threads (anything a space memoises on first use must not depend on the thread count)
+    cid = "det:%s:thread_history" % layer
+    if ctx.want(cid):
+        import numba
+
+        with ctx.guard(cid, "determinism"):
+            rngh = ctx.rng("thread_history")
+            gh = M.to_grid(M.distort(M.refine(M.octahedron(), 2), rngh))
+            parh = O.params(api, 4, 4)
+            hashes_h = {}
+            try:
+                numba.set_num_threads(1)
+                p1h = api.function_space(gh, "P", 1)
+                rwgh, snch = api.function_space(gh, "RWG", 0), api.function_space(gh, "SNC", 0)
+                thunks_h = [("laplace.K[p1,p1]", lambda: O.dense(O.boundary(api, "laplace", "double_layer", p1h, p1h, p1h, parameters=parh))),
+                            ("maxwell.E[rwg,snc]", lambda: O.dense(O.boundary(api, "maxwell", "electric_field", rwgh, rwgh, snch, 0.9, parameters=parh)))]
+                for nm_, th_ in thunks_h:
+                    hashes_h[nm_] = [digest(th_())]
+                for nt in [t_ for t_ in (2, 3, 7, 16) if t_ <= numba.config.NUMBA_NUM_THREADS][-2:]:
+                    numba.set_num_threads(nt)
+                    for nm_, th_ in thunks_h:
+                        for _ in range(2):
+                            hashes_h[nm_].append(digest(th_()))
+            finally:
+                numba.set_num_threads(numba.config.NUMBA_NUM_THREADS)
+            bad_h = {nm_: sorted(set(h_)) for nm_, h_ in hashes_h.items() if len(set(h_)) > 1}
+            ctx.case(cid, {"operators": list(hashes_h), "assemblies": sum(len(h_) for h_ in hashes_h.values()), "distinct_results": {k_: len(set(v_)) for k_, v_ in hashes_h.items()}})
+            if bad_h:
+                ctx.violation("determinism:result_depends_on_thread_history", "%s: spaces first assembled under one thread give %s distinct results when reused under more threads"
+                              % (cid, {k_: len(v_) for k_, v_ in bad_h.items()}), cid)
+        for m, msg in rec.drain():
+            ctx.violation(m, "%s: %s" % (cid, msg), cid)
+    ctx.lap("thread_history")
     table = determinism(ctx, W, layer)
     ctx.lap("determinism")
     if layer == "omp":
